@@ -1,6 +1,7 @@
 (* Reference automaton 1: the powerset of the NFA that lox built for a mode
    (dumped after input normalisation), with lox's meaning of the non-greedy
-   mark (stop when the set holds an accepting state and a marked state) and of
+   mark (stop when the set holds the accepting state and a marked state of one
+   and the same rule) and of
    rule priority (the action list with the smallest source position wins).
    This is "what the tables were built from" for property C10. *)
 From Coq Require Import List ZArith Bool Arith.
@@ -10,6 +11,7 @@ Import ListNotations.
 Record nstate := {
   n_accept : bool;
   n_ng : bool;
+  n_rule : nat;                          (* the rule the state was built for *)
   n_acts : option (Z * list (Z * Z));    (* source position, action pairs *)
   n_eps : list nat;
   n_edges : list (Z * Z * list nat);     (* [lo, hi] -> successors *)
@@ -18,7 +20,7 @@ Record nstate := {
 Definition nfa := list nstate.           (* indexed by state id *)
 
 Definition nget (n : nfa) (i : nat) : nstate :=
-  nth i n {| n_accept := false; n_ng := false; n_acts := None; n_eps := []; n_edges := [] |}.
+  nth i n {| n_accept := false; n_ng := false; n_rule := O; n_acts := None; n_eps := []; n_edges := [] |}.
 
 (* sorted duplicate-free lists of state ids *)
 Fixpoint ins (x : nat) (l : list nat) : list nat :=
@@ -47,8 +49,9 @@ Definition closure (n : nfa) (l : list nat) : list nat := eclose n (S (length n)
 
 Definition set_view (n : nfa) (set : list nat) : view (list nat) :=
   let sts := map (nget n) set in
-  let acc := existsb n_accept sts in
-  let ng := existsb n_ng sts in
+  (* stop early iff the set holds the accepting state and a non-greedy state of one rule *)
+  let acc_rules := map n_rule (filter n_accept sts) in
+  let ngacc := existsb (fun s => n_ng s && existsb (Nat.eqb (n_rule s)) acc_rules) sts in
   (* every range leaving the set, with the closed successor set; ranges are
      pairwise equal or disjoint after normalisation, so grouping by equality
      is exact *)
@@ -67,7 +70,7 @@ Definition set_view (n : nfa) (set : list nat) : view (list nat) :=
                 | Some pa, None => Some pa
                 | None, _ => b
                 end) sts None in
-  {| v_flag := acc && ng;
+  {| v_flag := ngacc;
      v_trans := tr;
      v_acts := match best with Some (_, a) => a | None => [] end |}.
 
